@@ -134,6 +134,17 @@ FIXED = [
     ("fix: a window function above ORDER BY or DISTINCT keeps its value", "C01", "`select a, row_number() over (order by a) from t order by b` returned NULLs (optimizer on) / the argument column instead of the window value: pushdown-proj-order pruned the window output below the Order node; pointed out by a seeding agent"),
     ("fix: rewrites that drop or add an INT literal keep the data type", "C17", "`select si + 0 from n` (si SMALLINT): optimized plan returns SMALLINT where the bound query declares INT (output schema changed); a view created from it panicked downstream operators; pointed out by a seeding agent; also C16"),
     ("fix: the window operator skips an empty input chunk", "C17", "db plain:nul:nul on disk: `select b, count(a) over () from t1 where b > 0 order by b limit 3` panicked in window.rs (unwrap of an empty chunk builder)"),
+    ("fix: a character string compares with a value of another type", "C14", "type matrix: `select dt < '2024-01-01' from ty`, `select i = s from ty`: accepted by the type checker, 'no function gt(String, Date)' at run time (132 operand pairs x 6 operators)"),
+    ("fix: division and modulo accept the untyped NULL", "C14", "type matrix: `select i / null from ty`, `select i % null from ty`: 'no function div(Int32, NULL)'"),
+    ("fix: DATE and INTERVAL arithmetic is typed as the kernels implement it", "C14", "type matrix: `select dt + iv from ty` failed with 'no function add(Interval, Date)' (add-comm swapped the operands); `dt * iv`, `iv - dt`, `dt % iv` type-checked without a kernel"),
+    ("fix: LIKE takes a pattern that is not a constant", "C14", "type matrix: `select s like s from ty` panicked in the evaluator ('like pattern must be a string constant'); 'a.c' matched 'abc', 'a(%' panicked on the regex"),
+    ("fix: unary minus and plus accept a SMALLINT", "C14", "type matrix: `select - si from ty`: 'no function -(Int16)'"),
+    ("fix: CASE evaluates for every result type", "C14", "type matrix / C02 string-expr: `select case when a > 1 then 'big' else 'small' end from t3`: 'no function case(String, String)' (also BOOLEAN, TIMESTAMP, BLOB branches)"),
+    ("fix: EXTRACT evaluates on an INTERVAL", "C14", "type matrix: `select extract(year from iv) from ty`: 'no function extract(Interval)'"),
+    ("fix: an aggregate of a constant is not folded to the constant", "C14", "type matrix: `select max(1) from ty`, `select min('a') from ty`: aggregation operator panicked 'not aggregation: 1'; folded value wrong over an empty input"),
+    ("fix: REPLACE takes search and replacement strings that are not constants", "C14", "type matrix: `select replace(s, s, s) from ty` panicked in the evaluator ('replace from must be a string constant')"),
+    ("fix: EXTRACT of hour, minute or second from a DATE is 0", "C14", "type matrix: `select extract(hour from dt) from ty`: 'no function extract HOUR from(Date)'"),
+    ("fix: a DELETE does not delete, and count, rows that a concurrent DELETE has just deleted", "C10", "workload del-t|del-t (two sessions, `delete from t where a = 1` each), schedule B pins+locks, A scans, B commits, A commits: both report 1 deleted row (570 schedules); pointed out by a seeding agent"),
     ("fix: a DOUBLE that is infinite, NaN or beyond the range of DECIMAL", "C14", "table fd(d double, e decimal): `select i, d > e from fd` with d = 1e300 panicked (Decimal::from_f64_retain(..).unwrap()), likewise `cast(d * d as decimal)`; pointed out by a seeding agent"),
     ("fix: nullable block iterator keeps the validity", "C06", "int16 nullable plain, block 32, 81-row pattern, script [next(1), next(7)]: a batch spanning a block boundary lost rows / reported wrong row ids (155 050 cases)"),
 ]
